@@ -907,15 +907,21 @@ def _c08_wire_rules(an, V):
 def oracle_c10(an):
     out = []
     V = lambda cls, msg, seq=None, **f: out.append(Violation('C10', 'C10.' + cls, msg, seq, **f))
-    if not an.fault_free or not an.stopped or an.world.incomplete or an.world.stats.get('not_drained'):
+    if not an.fault_free or an.world.incomplete or an.world.stats.get('not_drained'):
         return out  # not quiescent: frames still queued or in flight
     for ev in an.by_kind['final']:
-        if ev['streams']:
-            kinds = [_describe_sid(an, ev['ep'], sid) for sid in ev['streams']]
+        # every interaction of the plan ran to its end (all of them are leaks), or - when some interaction never
+        # ends, e.g. a subscriber that stops granting credit - the frames this endpoint sent and received say that
+        # this particular stream has terminated in both directions
+        leaked = [sid for sid in ev['streams'] if an.stopped or _wire_terminated(an, ev['ep'], sid)]
+        if leaked:
+            kinds = [_describe_sid(an, ev['ep'], sid) for sid in leaked]
             half_close = all(k.startswith('channel/') and ('cancelled' in k or '_error' in k or 'handler_' in k)
                              for k in kinds)
-            V('stream_leaked', '%s still holds stream(s) %s at quiescence (%s)' % (ev['ep'], ev['streams'], kinds),
+            V('stream_leaked', '%s still holds stream(s) %s at quiescence (%s)' % (ev['ep'], leaked, kinds),
               ev['seq'], ep=ev['ep'], what=sorted(set(kinds)), only_channel_ended_by_cancel_or_error=half_close)
+        if not an.stopped:
+            continue
         if ev['frags']:
             V('fragments_leaked', '%s still holds partial frames for %s' % (ev['ep'], ev['frags']), ev['seq'], ep=ev['ep'])
     # "the stream's id can be used again": with a reduced id space ids come round; the interaction
@@ -940,6 +946,34 @@ def oracle_c10(an):
                 V('reused_id_not_served', 'interaction %d on the re-used id %d: %s' % (iid, reused[iid][1], v.msg), v.seq,
                   via=v.cls, ep=reused[iid][0])
     return out
+
+
+def _wire_terminated(an, ep, sid):
+    """Has the interaction on `sid` terminated, judged only by the frames `ep` itself queued and received?
+    (response delivered / completed / error / cancel; for a channel both directions closed, in either order).
+    Ids that were used more than once in the run are left to the all-interactions-finished rule."""
+    if len(an.sid_hist.get(('client', sid), [])) + len(an.sid_hist.get(('server', sid), [])) != 1:
+        return False
+    req_ep = 'client' if an.sid_hist.get(('client', sid)) else 'server'
+    iid = an.sid_hist[(req_ep, sid)][0][1]
+    kind = an.ia.get(iid, {}).get('kind')
+    requester = req_ep == ep
+    sent = [e['f'] for e in an.by_kind['enq'] if e['ep'] == ep and e['f']['sid'] == sid]
+    recv = [e['f'] for e in an.by_kind['rx'] if e['ep'] == ep and e['f']['sid'] == sid]
+    if any(f['type'] == 'ERROR' for f in sent + recv):
+        return True
+    out_done = any(f.get('complete') and f['type'] in ('PAYLOAD', 'REQUEST_CHANNEL') for f in sent) or \
+        any(f['type'] == 'CANCEL' for f in recv)
+    in_done = any(f.get('complete') and f['type'] in ('PAYLOAD', 'REQUEST_CHANNEL') for f in recv) or \
+        any(f['type'] == 'CANCEL' for f in sent)
+    if kind == 'rr':
+        return (any(f['type'] == 'PAYLOAD' and not f.get('follows') for f in recv) or in_done) if requester else \
+            (any(f['type'] == 'PAYLOAD' for f in sent) or out_done)
+    if kind == 'stream':
+        return in_done if requester else out_done
+    if kind == 'channel':
+        return in_done and out_done
+    return False
 
 
 def _describe_sid(an, ep, sid):
@@ -1288,6 +1322,24 @@ def oracle_c11(an):
     for iid, ia in an.ia.items():
         kind = ia['kind']
         req = next((e for e in an.acts.get(iid, []) if e['what'] == 'request'), None)
+        if req is not None and req['seq'] > fseq and not an.request_failed(iid):
+            # issued on an endpoint whose connection was already gone: not pending at the loss, but pending when that
+            # endpoint's own close() is called later - which must fail it like any other
+            own_close = next((e for e in faults if e['what'] == 'close' and e.get('who') == an.requester(iid)
+                              and e['seq'] > req['seq']), None)
+            if own_close is not None and own_close['t'] <= mark['t'] - 0.5 * an.plan.get('settle', 4.0):
+                facts = dict(kind=kind, cause=cause, framing=framing, by=an.requester(iid), after_loss=True)
+                if kind == 'rr':
+                    if not [e for e in allfut.get((iid, 'requester'), []) if e['seq'] < settled]:
+                        V('request_left_hanging', 'request-response %d issued after the loss (%s) is still pending %.1fs after %s called close()'
+                          % (iid, cause, an.plan.get('settle', 0), an.requester(iid)), None, **facts)
+                elif kind in ('stream', 'channel') and an.cancel_seq(iid) is None:
+                    evs = [e for e in allsub.get((iid, 'requester'), []) if e['seq'] < settled]
+                    term = [e for e in evs if e['cb'] in ('on_complete', 'on_error') or (e['cb'] == 'on_next' and e.get('complete'))]
+                    if evs and not term:
+                        V('subscriber_left_hanging', '%s %d issued after the loss (%s): no terminal signal although %s called close()'
+                          % (kind, iid, cause, an.requester(iid)), None, **facts)
+            continue
         if req is None or req['seq'] > fseq or an.request_failed(iid):
             continue  # started after the loss: outside the statement ("pending at that moment")
         facts = dict(kind=kind, cause=cause, framing=framing, by=an.requester(iid))
